@@ -186,16 +186,16 @@ static void *thread_fn(void *arg) {
         wrapper_ptr = NULL;
     }
 
-    struct thread_atexit_callback *exit_callback_data = wrapper.atexit;
-    while (exit_callback_data) {
+    /* always take the head of the list: a callback may itself register further callbacks, which then run next */
+    while (wrapper.atexit) {
+        struct thread_atexit_callback *exit_callback_data = wrapper.atexit;
         aws_thread_atexit_fn *exit_callback = exit_callback_data->callback;
         void *exit_callback_user_data = exit_callback_data->user_data;
-        struct thread_atexit_callback *next_exit_callback_data = exit_callback_data->next;
+        wrapper.atexit = exit_callback_data->next;
 
         aws_mem_release(allocator, exit_callback_data);
 
         exit_callback(exit_callback_user_data);
-        exit_callback_data = next_exit_callback_data;
     }
     tl_wrapper = NULL;
 
